@@ -67,7 +67,11 @@ def _composites(tier):
         ("focusedseq", "b", [["a", ("const", "00")], ["b", I16l], ["c", ("const", "ff")]]),
         ("array", 3, I16b), ("array", 0, I8), ("array", 2, V),
         ("greedyrange", I16l, 2), ("greedyrange", V, 2), ("greedyrange", ("constv", 7, I8), 2),
-        ("prefixedarray", I8, I16b, 2), ("prefixedarray", V, I8, 3),
+        ("prefixedarray", I8, I16b, 2), ("prefixedarray", V, I8, 3), ("prefixedarray", ("fmt", "Int8sb"), I8, 2),
+        ("prefixedarray", ("fmt", "Int16sl"), ("flag",), 1),
+        ("struct", [["n", ("fmt", "Int8sb")], ["items", ("arrayctx", "n", None, I8)], ["t", I8]]),
+        ("struct", [["n", ("fmt", "Int8sb")], ["d", ("bytesctx", "n", None)], ["t", I8]]),
+        ("struct", [["n", ("fmt", "Int16sb")], ["d", ("prefixed", ("fmt", "Int8sb"), ("greedybytes", 1), False)]]),
         ("repeatuntil", 0, I8, 3),
         ("prefixed", I8, GB, False), ("prefixed", I8, GB, True), ("prefixed", V, ("greedyrange", I16b, 2), False),
         ("prefixed", ("fmt", "Int16sb"), GB, False), ("prefixed", ("fmt", "Int16ul"), ("greedybytes", 1), True),
